@@ -9,8 +9,11 @@ Streams (model `Wpull.Decomp` vs the real code of the checkout under test):
   body     Stream._setup_decompressor + _decompress_data per piece +
            _flush_decompressor  (the stream-level functions of the property)
   e2e      Stream.read_response + read_body over an in-memory connection for
-           the three framings (close / Content-Length / chunked); the pieces
-           are whatever the real reads returned
+           the framings close / Content-Length / chunked / unparseable
+           Content-Length (fallback to close) / ignore_length, each with the
+           body kept (file=BytesIO), discarded (file=None, as
+           Session.download(file=None) does) and raw=True (no decoding, for
+           contrast); the pieces are whatever the real reads returned
 The last three are lock-step co-simulations: `zlib.decompressobj` inside
 wpull.decompression is wrapped so that every call on the underlying zlib
 object and its result is logged; the model replays the wrapper logic over
@@ -21,7 +24,8 @@ Direct oracle (independent of the model), on the real code:
   * result(pieces) == result([whole body])           (split invariance)
   * result == one-shot zlib decode of the whole body with the
     zlib-then-raw-deflate fallback; a one-shot failure (corrupt / truncated
-    data) must surface as ProtocolError at the stream level, never as content.
+    data) must surface as ProtocolError at the stream level, never as content
+    -- whether or not the caller keeps the body (file=None gives the same verdict).
 Hypothesis monitor: the real zlib objects' logged behaviour over the pieces
 they were fed is compared with a fresh object fed the concatenation at once
 (chunking invariance of the trusted runtime = the hypothesis of the theorems).
@@ -43,6 +47,7 @@ RULE = ('payloads (empty / tiny / text / random / runs, 0..70 kB) x compression 
         'window bits, gzip header extras, trailing garbage, multi-member) x coding (gzip, zlib, raw deflate, identity, '
         'and mismatched header/body) x splits (whole, every 2-piece split, 1-byte first piece + every second cut, '
         'all single bytes, random) plus truncation at every cut position and byte corruption / insertion / deletion; '
+        'e2e: framing (close, length, chunked, bad length, ignore_length) x body kept / discarded (file=None) / raw; '
         'non-trivial = a decoder object is selected and the body is not empty; distinct by (coding, body, pieces, level)')
 TRUSTED = ['zlib (zlib.decompressobj): opaque streaming inflater; its chunking invariance (same total output, eof flag and '
            'error/no-error for every split of one input) is the hypothesis of the theorems and is monitored on every logged run',
@@ -570,16 +575,21 @@ def chunked_frame(rng, body):
     return wire, regions
 
 
-def real_e2e(header_value, strategy, wire_body, cuts, regions):
-    """Real Stream.read_response + read_body.  -> (res, pieces seen by the decoder, log, odd)"""
+def real_e2e(header_value, strategy, wire_body, cuts, regions, filemode='keep'):
+    """Real Stream.read_response + read_body.  -> (res, pieces seen by the decoder, log, odd)
+    strategy: close | length | chunked | badlength (unparseable Content-Length -> until close) |
+              ignorelen (Stream(ignore_length=True) with a Content-Length -> until close)
+    filemode: keep (file=BytesIO) | none (file=None: the caller discards the body) | raw (raw=True, no decoding)"""
     from wpull.protocol.http.stream import Stream
     from wpull.protocol.http.request import Request
     from wpull.network.connection import Connection
     head = b'HTTP/1.1 200 OK\r\n'
     if header_value:
         head += b'Content-Encoding: ' + header_value.encode('latin-1') + b'\r\n'
-    if strategy == 'length':
+    if strategy in ('length', 'ignorelen'):
         head += b'Content-Length: %d\r\n' % len(wire_body)
+    elif strategy == 'badlength':
+        head += b'Content-Length: 1x2\r\n'
     elif strategy == 'chunked':
         head += b'Transfer-Encoding: chunked\r\n'
     head += b'\r\n'
@@ -593,13 +603,15 @@ def real_e2e(header_value, strategy, wire_body, cuts, regions):
             conn = Connection(('10.0.0.1', 80), 'h')
             await compat._ensure(conn.connect())
             fc = net.conns[-1]
-            stream = Stream(conn, keep_alive=True)
+            stream = Stream(conn, keep_alive=True, ignore_length=(strategy == 'ignorelen'))
             request = Request('http://h/')
 
             async def client():
                 response = await compat._ensure(stream.read_response())
                 stream.data_event_dispatcher.add_read_listener(lambda d: seen.append(bytes(d)))
-                await compat._ensure(stream.read_body(request, response, file=out))
+                await compat._ensure(stream.read_body(request, response,
+                                                      file=None if filemode == 'none' else out,
+                                                      raw=(filemode == 'raw')))
 
             segs = [head] + fakenet.segment(wire_body, cuts)
             feeder = asyncio.ensure_future(fc.send_segments(segs, eof=True, yields=2))
@@ -612,7 +624,7 @@ def real_e2e(header_value, strategy, wire_body, cuts, regions):
                 task.result()
             except Exception as e:  # noqa
                 return ('exc', classify_exc(e))
-            return ('ok', out.getvalue())
+            return ('ok', None if filemode == 'none' else out.getvalue())
 
     with logged_zlib() as z:
         res = compat.run(go())
@@ -632,8 +644,11 @@ def real_e2e(header_value, strategy, wire_body, cuts, regions):
 
 
 def stream_e2e(ctx, cases):
+    """cases: (coding, header_value, body, strategy, meta, seed[, filemode])"""
     rows = []
-    for (coding, header_value, body, strategy, meta, seed) in cases:
+    for case_t in cases:
+        (coding, header_value, body, strategy, meta, seed) = case_t[:6]
+        filemode = case_t[6] if len(case_t) > 6 else 'keep'
         rng = ctx.subrng('e2e/%s' % seed)
         if strategy == 'chunked':
             wire, regions = chunked_frame(rng, body)
@@ -641,14 +656,16 @@ def stream_e2e(ctx, cases):
             wire, regions = body, None
         cuts = fakenet.random_cuts(rng, len(wire), rng.choice(['none', 'one', 'few', 'many', 'bytes'] if len(wire) < 400
                                                                else ['none', 'one', 'few']))
-        res, pieces, log, odd = real_e2e(header_value, strategy, wire, cuts, regions)
-        rows.append((coding, header_value, body, strategy, meta, seed, res, pieces, log, odd))
-    reps = ctx.model.ask(['decomp body %s %s %s' % (r[0], enc_pieces(r[7]), enc_log(r[8])) for r in rows])
-    for (coding, header_value, body, strategy, meta, seed, res, pieces, log, odd), rep in zip(rows, reps):
+        res, pieces, log, odd = real_e2e(header_value, strategy, wire, cuts, regions, filemode)
+        rows.append((coding, header_value, body, strategy, meta, seed, res, pieces, log, odd, filemode, wire))
+    # raw=True: no decoder is set up, the model is the identity coding
+    reps = ctx.model.ask(['decomp body %s %s %s' % ('i' if r[10] == 'raw' else r[0], enc_pieces(r[7]), enc_log(r[8])) for r in rows])
+    for (coding, header_value, body, strategy, meta, seed, res, pieces, log, odd, filemode, wire), rep in zip(rows, reps):
         case = {'stream': 'e2e', 'coding': coding, 'header': header_value, 'body': body, 'strategy': strategy,
-                'meta': meta, 'seed': seed}
-        ctx.case(('e2e', coding, body, strategy, seed), nontrivial=(coding != 'i' and len(body) > 0),
-                 tags=['e2e:' + strategy + ':' + coding, 'e2e:result=' + (res[0] if res[0] != 'exc' else res[1])])
+                'meta': meta, 'seed': seed, 'filemode': filemode}
+        ctx.case(('e2e', coding, body, strategy, seed, filemode), nontrivial=(coding != 'i' and len(body) > 0),
+                 tags=['e2e:' + strategy + ':' + coding, 'e2e:file=' + filemode,
+                       'e2e:result=' + (res[0] if res[0] != 'exc' else res[1])])
         if res[0] == 'stalled':
             ctx.disagree('e2e', case, 'completes', 'stalled')
             continue
@@ -656,18 +673,42 @@ def stream_e2e(ctx, cases):
             raise Infra('e2e harness: the pieces observed (%d bytes) are not the body (%d bytes)' % (len(b''.join(pieces)), len(body)))
         # model: same result class / content, whole log consumed (per-piece outputs are not observable through the file)
         rp = rep.split(' ')
-        model = ' '.join(rp[:2]) + ' ' + rp[-1]
-        real = fmt_res(res) + ' 0'
+        if filemode == 'keep' or (filemode == 'raw' and strategy != 'chunked'):
+            model = ' '.join(rp[:2]) + ' ' + rp[-1]
+            real = fmt_res(res) + ' 0'
+        else:
+            # body discarded (file=None) or raw chunked framing in the file: the content is not comparable,
+            # the exception class and the zlib calls (final flush included) are
+            model = (rp[0] if rp[0] == 'ok' else ' '.join(rp[:2])) + ' ' + rp[-1]
+            real = ('ok' if res[0] == 'ok' else fmt_res(res)) + ' 0'
         if model != real:
             ctx.disagree('e2e', case, rep[:400], real[:400])
         if odd:
             ctx.disagree('e2e-zlib-api', case, 'plain calls', odd[0])
         monitor_zlib(ctx, log, case)
+        if filemode == 'raw':
+            want = ('ok', wire if strategy == 'chunked' else body)
+            if res != want:
+                ctx.fail('raw-not-passthrough', 'read_body_raw', case,
+                         'raw=True must hand the undecoded bytes through: %s' % fmt_res(res)[:160])
+            continue
         ref = reference(coding, body)
+        if filemode == 'none':
+            # the caller discards the body: the verdict (ok / ProtocolError) must be the same as with a file
+            if ref[0] == 'err':
+                if res[0] == 'ok':
+                    kind = 'truncated-accepted' if meta.get('mut') == 'truncated' else 'corrupt-accepted'
+                    ctx.fail(kind, 'read_body_discard', case,
+                             'one-shot zlib rejects the body; read_body(file=None) returned without an error')
+                elif res[1] != 'ProtocolError':
+                    ctx.fail('not-protocol-error', 'read_body_discard', case, 'undecodable body raised %s' % res[1])
+            elif ref[0] == 'ok' and res[0] != 'ok':
+                ctx.fail('wrong-content', 'read_body_discard', case, 'decodable body raised %s with file=None' % res[1])
+            continue
         oracle(ctx, case, coding, body, res, res, ref, meta, where='read_body')
     if rows:
         r = rows[0]
-        ctx.sample({'stream': 'e2e', 'coding': r[0], 'strategy': r[3], 'body': r[2], 'pieces': r[7]})
+        ctx.sample({'stream': 'e2e', 'coding': r[0], 'strategy': r[3], 'filemode': r[10], 'body': r[2], 'pieces': r[7]})
 
 
 # ------------------------------------------------------------------ case families
@@ -765,6 +806,10 @@ def family_wrapper(ctx, rng, batch, n):
     batch.flush()
 
 
+STRATEGIES = ('close', 'length', 'chunked', 'badlength', 'ignorelen')
+FILEMODES = ('keep', 'none', 'raw')
+
+
 def family_e2e(ctx, rng, n):
     cases = []
     for i in range(n):
@@ -779,8 +824,13 @@ def family_e2e(ctx, rng, n):
         elif r < 0.4 and fmt != 'plain':
             body, meta['mut'] = mutate(rng, body)
         header = {'g': rng.choice(['gzip', 'GZIP']), 'd': rng.choice(['deflate', 'Deflate']), 'i': rng.choice(['', 'identity'])}[coding]
-        for strategy in ('close', 'length', 'chunked'):
-            cases.append((coding, header, body, strategy, meta, '%d/%d/%s' % (ctx.seed, i, strategy)))
+        for strategy in STRATEGIES:
+            if strategy in ('badlength', 'ignorelen') and i % 3:
+                continue
+            for filemode in FILEMODES:
+                if filemode == 'raw' and i % 4:
+                    continue
+                cases.append((coding, header, body, strategy, meta, '%d/%d/%s' % (ctx.seed, i, strategy), filemode))
     stream_e2e(ctx, cases)
 
 
@@ -815,7 +865,8 @@ def replay(ctx, case, kind=None, where=None):
         if len(results) > 1:
             ctx.fail('split-dependent', 'wrapper', case, 'the wrapper gives %d different results over the splits of one body' % len(results))
     elif s == 'e2e':
-        stream_e2e(ctx, [(case['coding'], case['header'], case['body'], case['strategy'], case.get('meta', {}), case['seed'])])
+        stream_e2e(ctx, [(case['coding'], case['header'], case['body'], case['strategy'], case.get('meta', {}), case['seed'],
+                          case.get('filemode', 'keep'))])
     elif s == 'hdr':
         stream_hdr(ctx, [case['data']])
     elif s == 'coding':
